@@ -45,7 +45,7 @@ func checkC04(c *hx.Checker) {
 		maxBatchRank = 3
 	}
 	c.Rule = fmt.Sprintf("MatMul: operand ranks 1..%d: every (batchA, batchB) pair of Box(rank 0..%d, extents {1,2,3}) (broadcastable and not) x (m,k,n) in {1,2,3}^3 x {matrix, vector} per side x mismatching k; float32 everywhere, the other gate dtypes on a sub-box. "+
-		"Gemm: transA x transB x (alpha,beta) in {(1,1),(0.5,2),(-1,0),(0,1),(2,-0.5)} x (M,K,N) in {1,2,3}^3 x C in {absent, (), (1), (N), (1,N), (M,1), (M,N), (M) , (N,M), (2,M,N), (1,1)} (valid iff unidirectionally broadcastable), float32 + float64, inner-dimension mismatch. "+
+		"Gemm: transA x transB x (alpha,beta) in {1,0.5,-1,0,2}x{1,2,0,-0.5} x (M,K,N) in {1,2,3}^3 x C in {absent, (), (1), (N), (1,N), (M,1), (M,N), (M) , (N,M), (2,M,N), (1,1)} (valid iff unidirectionally broadcastable), float32 + float64, inner-dimension mismatch. "+
 		"LinearRegressor: targets x features x batch in {1,2,3}^3 x intercepts {absent, per target, single} x X rank {1,2}, wrong feature count, int/double inputs. Scaler: features x batch in {1,2,3}^2 x offset/scale length {F,1,wrong} x X rank 1..3. "+
 		"Operator API + Model.Run (with weights as initializers) on a sub-box; instance-reuse histories. non-trivial = every case; discrimination counters report how many cases separate the true semantics from the swapped ones", maxBatchRank+2, maxBatchRank)
 	c.Assumptions = []string{"dot-product oracle: |impl - ref| <= gamma_(2k+4) * sum|a_i b_i| (+ 4 ulp), reference accumulated in float64; integer MatMul is exact (wrap-around)",
@@ -119,11 +119,17 @@ func checkC04(c *hx.Checker) {
 		}
 	}
 	// ---------------- Gemm
+	var alphaBeta [][2]float32
+	for _, a := range []float32{1, 0.5, -1, 0, 2} {
+		for _, b := range []float32{1, 2, 0, -0.5} {
+			alphaBeta = append(alphaBeta, [2]float32{a, b})
+		}
+	}
 	var discTrans, discAB, gemmCases int
 	for _, dt := range []ref.DT{ref.F32, ref.F64} {
 		for _, tA := range []bool{false, true} {
 			for _, tB := range []bool{false, true} {
-				for _, ab := range [][2]float32{{1, 1}, {0.5, 2}, {-1, 0}, {0, 1}, {2, -0.5}} {
+				for _, ab := range alphaBeta {
 					for _, mkn := range seqs([]int64{1, 2, 3}, 3, 3) {
 						M, K, N := int(mkn[0]), int(mkn[1]), int(mkn[2])
 						ash, bsh := []int{M, K}, []int{K, N}
